@@ -63,7 +63,10 @@ RULE_ADDED = (
               'g served and others are queueing. '
               ' '
               'Round 14: rounds with the manager in legacy (--version-one) mode, plain and with'
-              ' a link failure. ')
+              ' a link failure. '
+              ' '
+              'Round 15: rounds on the SGX platform, half of them with a quiet period and the m'
+              "anager's own timers coming due 400 times sooner; more slow-sender rounds. ")
 RULE = RULE + " " + RULE_ADDED.strip()
 ASSUMPTIONS = [
     "schedules are those the OS produces under injected device delays; not enumerated",
@@ -97,7 +100,7 @@ def shards(tier, seed):
                  "sgx_rounds": 2 if i in (1, 2, 4, 5) else 0,
                  "fault_rounds": 1 if 1 <= i <= 3 else 0,
                  "late": [12.5, 35.0] if i in (4, 5) else [],
-                 "slowsend_rounds": 1 if i in (5, 6, 7) else 0,
+                 "slowsend_rounds": 2 if i in (4, 5, 6, 7) else 0,
                  "fatal_rounds": 4 if i in (3, 4, 6, 7) else 0,
                  "quiet": [31.0, 601.0] if i in (0, 1, 5) else [],
                  "uihb_tail": [12.5] if i == 2 else []} for i in range(8)]
